@@ -100,11 +100,12 @@ func (fr *Frame) oblige(kind, name, formula string) *Obl {
 		full = fmt.Sprintf("%s~%d", full, n)
 	}
 	o := &Obl{Name: full, Kind: kind, Guard: fr.reach, Formula: formula, NFacts: len(fr.vc.facts), Pos: fr.pos(), Func: fr.vc.fnKey}
-	if fr.vc.onlyKinds != nil && !fr.vc.onlyKinds[kind] && kind != "stale" {
+	alwaysKept := kind == "stale" || kind == "inv-entry" || kind == "inv-preserve"
+	if fr.vc.onlyKinds != nil && !fr.vc.onlyKinds[kind] && !alwaysKept {
 		fr.vc.dropped[kind]++
 		return o // generated but not claimed for this function (thin contract)
 	}
-	if fr.vc.onlyLabels != nil && kind != "stale" {
+	if fr.vc.onlyLabels != nil && !alwaysKept {
 		keep := false
 		for l := range fr.vc.onlyLabels {
 			if strings.HasSuffix(name, "#"+l) {
@@ -415,6 +416,7 @@ func (fr *Frame) loopHead(li *loopInfo, phis []*ssa.Phi) {
 		li.lc = &LoopContract{Ord: li.ord}
 	}
 	li.entrySt = fr.st.clone()
+	li.entryAlloc = fr.st.alloc
 	// 1. invariants hold on entry
 	for i, inv := range li.lc.Invariants {
 		t, err := fr.evalClause(inv, &evalCtx{fr: fr, st: fr.st, old: fr.entry, loop: li})
@@ -468,7 +470,7 @@ func (fr *Frame) loopHead(li *loopInfo, phis []*ssa.Phi) {
 		}
 		old := fr.vc.heapGet(fr.st, h)
 		nw := fr.vc.heapHavoc(fr.st, h)
-		if li.declared != nil && !ws.all && !strings.HasPrefix(h, "G$") {
+		if li.declared != nil && !ws.all && !strings.HasPrefix(h, "G$") && !wholeDeclared(li, h) {
 			fr.vc.fact(loopFrameFormula(li, h, nw, old))
 		}
 	}
@@ -486,6 +488,7 @@ func (fr *Frame) loopHead(li *loopInfo, phis []*ssa.Phi) {
 		}
 	}
 	// 3. assume invariants
+	fr.assumeGlobalInvariants()
 	for i, inv := range li.lc.Invariants {
 		t, err := fr.evalClause(inv, &evalCtx{fr: fr, st: fr.st, old: fr.entry, loop: li})
 		if err != nil {
@@ -560,7 +563,7 @@ func (fr *Frame) loopLatch(li *loopInfo, from *ssa.BasicBlock) {
 		for _, h := range sortedKeys(li.headSt.heaps) {
 			cur := fr.vc.heapGet(fr.st, h)
 			head := li.headSt.heaps[h]
-			if cur == head || strings.HasPrefix(h, "G$") || strings.HasPrefix(h, "RV$") {
+			if cur == head || strings.HasPrefix(h, "G$") || strings.HasPrefix(h, "RV$") || wholeDeclared(li, h) {
 				continue
 			}
 			fr.oblige("frame", name+"/frame#"+h, loopFrameFormula(li, h, cur, head))
@@ -591,6 +594,15 @@ func isRangeIndexPhi(ph *ssa.Phi) bool {
 		}
 	}
 	return okInit && okStep && len(ph.Edges) == 2
+}
+
+func wholeDeclared(li *loopInfo, h string) bool {
+	for _, r := range li.declared[h] {
+		if r == "*" {
+			return true
+		}
+	}
+	return false
 }
 
 // loopFrameFormula: objects that existed at loop entry and are not designated
@@ -708,6 +720,47 @@ func (fr *Frame) resolveLocal(name string, li *loopInfo) (*Val, bool) {
 				return fr.load(v.loc), true
 			}
 			return v, true
+		}
+	}
+	// a phi for that variable in a dominating block (closest dominator wins)
+	{
+		var atB *ssa.BasicBlock
+		if li != nil {
+			atB = li.header
+		} else if fr.curInstr != nil {
+			atB = fr.curInstr.Block()
+		}
+		var bestPhi *ssa.Phi
+		for _, b := range fr.fn.Blocks {
+			if atB == nil || !(b.Dominates(atB)) || (li != nil && b == atB) {
+				continue
+			}
+			for _, in := range b.Instrs {
+				if ph, ok := in.(*ssa.Phi); ok && ph.Comment == name {
+					if _, has := fr.vals[ph]; has {
+						if bestPhi == nil || bestPhi.Block().Dominates(b) {
+							bestPhi = ph
+						}
+					}
+				}
+			}
+		}
+		if bestPhi != nil {
+			// a later plain definition may still shadow it: handled by DebugRefs below only if positioned after the phi
+			pv := fr.vals[bestPhi]
+			var later *ssa.DebugRef
+			for _, d := range fr.debugRefs {
+				if id, ok := d.Expr.(*ast.Ident); ok && id.Name == name && !d.IsAddr {
+					if _, has := fr.vals[d.X]; has && d.Block() != bestPhi.Block() && bestPhi.Block().Dominates(d.Block()) && (atB == nil || d.Block().Dominates(atB)) && !(li != nil && d.Block() == atB) {
+						if later == nil || d.Pos() > later.Pos() {
+							later = d
+						}
+					}
+				}
+			}
+			if later == nil {
+				return pv, true
+			}
 		}
 	}
 	// DebugRefs: pick the reference that is latest in program order among
